@@ -61,6 +61,9 @@ T = {
     "C17": ("exploration", "model-based differential on the sweep API (list-semantics reference): single sweeps, product, +/MultiSweep, filtered_sweep, count_sweep",
             "Exhaustive over item dicts with <=3 keys (thorough: 4), lengths 0..3, all partitions into zipped groups, every option cell (constants/derivers/exclude), all structure pairs for product/+ and sampled triples.",
             "Row-major order demanded only when dims is omitted or in item order; derivers are order-independent by construction; product with a zipped right operand under a dims=None left operand is a recorded known finding.", "4/C17"),
+    "C19": ("exploration", "differential of the two dataset constructors (identical()) and of dims / values / coordinates / sel against the denotation and the harness's own (input, axis) dependency analysis",
+            "Generated MapSpec pipelines run into a file_array folder; both constructors with load_intermediate on and off; every output's dims and values, every 1-D input coordinate (plain or ':'-joined multi-index component) and selection by coordinate value.",
+            "Selection on multi-index components is not demanded (xarray-version dependent); zipped inputs of rank >= 2 are a recorded known finding.", "4/C19"),
     "C20": ("exploration", "model-based differential on the Resources API (own arithmetic model) with icontract snapshot/ensure contracts on the real methods for the no-side-effect clause",
             "Exhaustive grid of single specifications, all ordered pairs of a value core, sampled operand lists, update calls, invalid-combination grid and mutated memory/time strings, NestedPipeFunc maxima; contracts count their evaluations (zero = inconclusive).",
             "Memory compared under decimal and binary unit conventions; only strings outside a permissive grammar must be rejected; see evidence assumptions.", "4/C20"),
